@@ -9,9 +9,9 @@ fn c02_state(cur_kind: u8) -> (Store, E) {
     let e = E::any(cur_kind == 2);
     let data = if cur_kind == 0 {
         // an unrelated sibling keeps the root's tree allocated
-        node(None, vec![("b", node(Some(ValueEntry::Plain(Value::Bool(true))), vec![]))])
+        n1(None, "b", n0(Some(ValueEntry::Plain(Value::Bool(true)))))
     } else {
-        node(None, vec![("a", node(Some(e.entry()), vec![]))])
+        n1(None, "a", n0(Some(e.entry())))
     };
     (Store { data, len: 1, ..Default::default() }, e)
 }
@@ -40,7 +40,7 @@ fn c02_table(cur_kind: u8, inc_cas: bool) {
         if ok {
             // ... and raises it by exactly one (as a mathematical integer: no wrap-around)
             let now = store.cget(&key);
-            assert!(matches!(now, Some((Value::Bool(b), v)) if *b == nb && v > cur && v - cur == 1),
+            assert!(matches!(now, Some((val, v)) if val.as_bool() == Some(nb) && v > cur && v - cur == 1),
                 "C02: accepted cset stores the new value with version + 1");
             assert!(matches!(store.get_node(&key).and_then(|n| n.value()), Some(ValueEntry::Cas(_, _))),
                 "C02: accepted cset leaves a CAS entry");
@@ -49,7 +49,7 @@ fn c02_table(cur_kind: u8, inc_cas: bool) {
         // a plain set never replaces a CAS-protected value
         assert!(ok == (cur_kind != 2), "C02: plain set accepted iff the value is not CAS protected");
         if ok {
-            assert!(matches!(store.get_node(&key).and_then(|n| n.value()), Some(ValueEntry::Plain(Value::Bool(b))) if *b == nb),
+            assert!(matches!(store.get_node(&key).and_then(|n| n.value()), Some(ValueEntry::Plain(val)) if val.as_bool() == Some(nb)),
                 "C02: accepted set stores the plain value");
         }
     }
@@ -126,7 +126,7 @@ fn c02_two_writers(cur_kind: u8) {
     assert!(!(ok1 && ok2), "C02: two writers won with the same version");
     if ok1 {
         let now = store.cget(&key);
-        assert!(matches!(now, Some((Value::Bool(true), nv)) if nv == cur + 1), "C02: final value is the winner's, version + 1");
+        assert!(matches!(now, Some((val, nv)) if val.as_bool() == Some(true) && nv == cur + 1), "C02: final value is the winner's, version + 1");
     } else if cur_kind == 0 {
         // v != 0: nobody can win on an absent key
         assert!(!ok2 && store.cget(&key).is_none(), "C02: no winner on absent key with non-zero version");
@@ -177,6 +177,6 @@ fn c02_retry_cycle_cas() {
     let r3 = store.insert_cas(&key, Value::Bool(false), cur + 1, false);
     assert!(r3.is_ok(), "C02: retry with the re-read version wins");
     core::mem::forget(r3);
-    assert!(matches!(store.cget(&key), Some((Value::Bool(false), nv)) if nv == cur + 2), "C02: both acknowledged updates are reflected");
+    assert!(matches!(store.cget(&key), Some((val, nv)) if val.as_bool() == Some(false) && nv == cur + 2), "C02: both acknowledged updates are reflected");
     core::mem::forget(store);
 }
